@@ -112,8 +112,10 @@ class Violation(Exception):
 # ------------------------------------------------------------------------------------------- engine
 
 class Engine:
-    ADVERT_BOUND = 400          # cycles from enable until LGOOD + 4 LCRD must be complete
-    QUIESCE_BOUND = 500
+    # bounded progress is counted in cycles in which the PHY was ready (source.ready high): a stalled PHY is not the
+    # receiver's fault.  Unstalled, luna needs 15 cycles for the advertisement and 3-4 per further command.
+    ADVERT_BOUND = 120          # ready-cycles from enable until LGOOD + 4 LCRD must be complete
+    QUIESCE_BOUND = 300         # ready-cycles until every obligation is met once the traffic has stopped
 
     def __init__(self, dut, b, rng, res, prop):
         self.dut, self.b, self.rng, self.res, self.prop = dut, b, rng, res, prop
@@ -433,13 +435,17 @@ class Engine:
                 m.ignoring = False
 
         # ---------------------------------------------------------- deadlines
-        if judged and self.advert is not None and cyc > self.advert["deadline"]:
+        self.last_src_ready = orr
+        if judged and self.advert is not None:
             a = self.advert
-            return self.fail("advert_incomplete", "after enable at %d: advert LGOOD=%s LCRDs=%d within %d cycles" % (
-                self.enable_rise, a["lgood"], m.lcrd_sent, self.ADVERT_BOUND))
+            a["budget"] -= orr
+            if a["budget"] < 0:
+                return self.fail("advert_incomplete", "after enable at %d: advert LGOOD=%s LCRDs=%d within %d cycles with source.ready high" % (
+                    self.enable_rise, a["lgood"], m.lcrd_sent, self.ADVERT_BOUND))
 
     accept_window = ()
     last_pop = -100
+    last_src_ready = 0
 
     def _queue_words(self, g):
         v = g(self.sig_hdr)
@@ -614,7 +620,7 @@ class Engine:
         if self.reset_seen or first:
             m.expected = 0
         m.fresh()
-        self.advert = {"lgood": None, "allowed": allowed, "deadline": cyc + self.ADVERT_BOUND}
+        self.advert = {"lgood": None, "allowed": allowed, "budget": self.ADVERT_BOUND}
         self.accept_window = ()
         self.inbox.clear()
         self.p_credits = 0
@@ -695,7 +701,7 @@ class Engine:
     def wait_advert(self):
         """wait until the advertisement of the current epoch is complete (the monitor enforces the deadline)"""
         n = 0
-        while self.advert is not None and not self.dead and n < self.ADVERT_BOUND + 50:
+        while self.advert is not None and not self.dead and n < 40 * self.ADVERT_BOUND:
             yield from self.tick()
             n += 1
 
@@ -703,20 +709,21 @@ class Engine:
         """all obligations met? (LGOODs, LBADs, LCRDs for consumed headers, headers offered)"""
         m = self.model
         bound = bound or self.QUIESCE_BOUND
-        n = 0
+        n = total = 0
         while not self.dead:
             done = (not m.lgood_due and not m.lbad_due and m.lcrd_sent == 4 + m.pops and self.advert is None
                     and (not m.fifo or not need_empty) and not self.txq and self.src_idle_run >= 4)
             if done:
                 return
-            if n >= bound:
+            if n >= bound or total >= 40 * bound:
                 break
             yield from self.tick()
-            n += 1
+            n += 1 if self.last_src_ready else 0
+            total += 1
         if self.dead:
             return
         if m.lgood_due:
-            self.fail("lgood_missing", "accepted header(s) %s not acknowledged within %d cycles" % (list(m.lgood_due), bound))
+            self.fail("lgood_missing", "accepted header(s) %s not acknowledged within %d ready-cycles" % (list(m.lgood_due), bound))
         elif m.lbad_due:
             self.fail("lbad_missing", "corrupted header not answered with LBAD within %d cycles" % bound)
         elif m.fifo and need_empty:
